@@ -424,17 +424,25 @@ func CheckC05(run *evid.Run) {
 				dup := &entry.Entry{LogID: x.W.LogID, Payload: []byte(fmt.Sprintf("%d.%d/repeated-links", h.Seed, h.Idx)), Next: []cid.Cid{a, a, b}, Refs: []cid.Cid{b, b, a}, V: 2,
 					Key: append([]byte(nil), last.GetKey()...), Sig: append([]byte(nil), last.GetSig()...), Identity: last.GetIdentity(),
 					Clock: entry.NewLamportClock(last.GetClock().GetID(), last.GetClock().GetTime()+1)}
+				// the digests are taken BEFORE the library sees the object for the first time (storing it is a library call too)
+				before := hx.ObjectDigest(dup)
+				nextBefore := fmt.Sprint(hx.Cids(dup.GetNext()), hx.Cids(dup.GetRefs()))
 				dh, err := entry.ToMultihashWithIO(x.W.Ctx, dup, x.W.Store.API(), nil, x.W.IOv())
+				if nextAfter := fmt.Sprint(hx.Cids(dup.GetNext()), hx.Cids(dup.GetRefs())); nextAfter != nextBefore {
+					wt := histSample(h)
+					wt["at"] = "after the history: a hand-built entry with next [a a b], refs [b b a] is stored"
+					run.Violate("C05/shared-entry-mutated", det("codec", h.Codec, "op", "store", "what", "link lists with a repeated element"), wt,
+						"storing an entry (returned %v) changed its link lists: were %s, are now %s", err, nextBefore, nextAfter)
+				}
 				if err == nil {
 					dup.Hash = dh
+					before = hx.ObjectDigest(dup)
 					ents := src.GetEntries()
 					ents.Set(dup.GetHash().String(), dup)
 					lo := x.W.LogOpts(x.W.LogID)
 					lo.Entries = ents
 					lo.Heads = []iface.IPFSLogEntry{dup}
 					if holder, err := ipfslog.NewLog(x.W.Store.API(), x.W.Idents[0], lo); err == nil {
-						before := hx.ObjectDigest(dup)
-						nextBefore := fmt.Sprint(hx.Cids(dup.GetNext()), hx.Cids(dup.GetRefs()))
 						fresh := x.W.NewLog(0)
 						_, jerr := fresh.Join(holder, -1)
 						run.Count("merges_of_a_log_holding_an_entry_with_repeated_links", 1)
